@@ -168,4 +168,71 @@ theorem C19_gen_tie :
     Gen.Misc.bleAdvSlices = [(0, 1), (2, 3), (3, 9), (9, 15), (15, 19)] ∧
     Gen.Misc.bleAdvUnpack = "<HHBB" := by decide
 
+/-! ## Inside one loop iteration (`Waiters.Micro`): the callbacks meet futures that are already done -/
+
+open HapVerif.Waiters.Micro in
+/-- the guarded `set_result` never raises: whatever state the registered future is in -/
+theorem wake_never_raises (id : Nat) (e : Micro.Entry) : (wake id e).2 = false := by
+  unfold wake setResult
+  split
+  · split
+    · rename_i hp; simp [hp]
+    · rfl
+  · rfl
+
+open HapVerif.Waiters.Micro in
+/-- **No advertisement makes the callback raise, in any schedule** - also when it is processed in the very loop
+    iteration in which a waiter for its id was cancelled or timed out (its future is done, its task has not run yet
+    and it is still registered). -/
+theorem C19_micro_callback_never_raises (evs : List Micro.Ev) : (Micro.run {} evs).raised = false := by
+  have h : ∀ (evs : List Micro.Ev) (s : Micro.St), s.raised = false → (Micro.run s evs).raised = false := by
+    intro evs
+    induction evs with
+    | nil => intro s hs; exact hs
+    | cons e es ih =>
+      intro s hs
+      apply ih
+      cases e with
+      | start k id =>
+        simp only [Micro.step, Micro.settle]
+        by_cases hd : id ∈ s.discovered <;> simp [hd, hs]
+      | adv id =>
+        simp only [Micro.step, hs, Bool.false_or]
+        simp [wake_never_raises]
+      | cancel k => exact hs
+      | timeout k => exact hs
+      | tick => exact hs
+  exact h evs {} rfl
+
+open HapVerif.Waiters.Micro in
+/-- **A waiter that is still pending when a valid advertisement for its id is processed is completed with the
+    discovery** - whatever else happened to other waiters in the same iteration - and the next run of the loop
+    reports it found. -/
+theorem C19_micro_pending_woken (s : Micro.St) (id : Nat) (e : Micro.Entry) (he : e ∈ s.entries)
+    (hid : e.id = id) (hreg : e.registered = true) (hp : e.st = .pending) :
+    { e with st := .resolved, registered := false } ∈ (Micro.step s (.adv id)).entries ∧
+    (e.k, Micro.Outcome.found) ∈ (Micro.settle (Micro.step s (.adv id))).done := by
+  have hw : (wake id e).1 = { e with st := .resolved, registered := false } := by
+    simp [wake, setResult, hid, hreg, hp]
+  have hmem : { e with st := .resolved, registered := false } ∈ (Micro.step s (.adv id)).entries := by
+    simp only [Micro.step, List.mem_map]
+    exact ⟨e, he, hw⟩
+  refine ⟨hmem, ?_⟩
+  simp only [Micro.settle, List.mem_append, List.mem_map, List.mem_filter]
+  right
+  exact ⟨_, ⟨hmem, by simp⟩, rfl⟩
+
+open HapVerif.Waiters.Micro in
+/-- a waiter whose future is already done (cancelled or timed out) is left alone by the advertisement: it ends with
+    its own outcome, never with a discovery it did not wait for any more -/
+theorem C19_micro_done_untouched (id : Nat) (e : Micro.Entry) (hd : e.st = .cancelled ∨ e.st = .timedOut) :
+    (wake id e).1.st = e.st := by
+  unfold wake
+  rcases hd with h | h <;> (split <;> simp [h])
+
+/-- non-vacuity: waiters 1 and 2 wait for device 7; waiter 1 is cancelled and, in the same iteration, the
+    advertisement arrives: waiter 2 is woken, waiter 1 ends cancelled, nothing raises -/
+example : (Micro.run {} [.start 1 7, .start 2 7, .cancel 1, .adv 7, .tick]).done = [(1, .cancelled), (2, .found)] ∧
+    (Micro.run {} [.start 1 7, .start 2 7, .cancel 1, .adv 7, .tick]).raised = false := by decide
+
 end HapVerif.C19
